@@ -3,6 +3,7 @@ package c14
 
 import (
 	"fmt"
+	"runtime/debug"
 	"time"
 
 	"github.com/anishathalye/porcupine"
@@ -26,6 +27,7 @@ type out struct {
 	CbSaw  int            // value a callback observed (-1: not called)
 	CbOK   bool
 	Length int
+	Panic  string // the operation panicked (never allowed)
 }
 
 // ---- sequential specification, per key ------------------------------------------------------------------
@@ -156,7 +158,18 @@ func (s *subject) elem(op Op) *cache.Element[int] {
 	return cache.NewElement(op.Val, until, nil)
 }
 
-func (s *subject) do(op Op) out {
+// do runs one operation; a panic inside the library is turned into an outcome (the locks are
+// released by the library's own deferred unlocks on the way up).
+func (s *subject) do(op Op) (o out) {
+	defer func() {
+		if r := recover(); r != nil {
+			o.Panic = fmt.Sprintf("%v\n%s", r, debug.Stack())
+		}
+	}()
+	return s.doRaw(op)
+}
+
+func (s *subject) doRaw(op Op) out {
 	o := out{CbSaw: -1}
 	switch op.Kind {
 	case "Store":
